@@ -75,8 +75,10 @@ type posaNode struct {
 	phash  ecommon.Hash
 	num    uint64
 	cb     ecommon.Address
-	sealBy int  // key index of a genuine seal, -1 otherwise
-	sealW  bool // sealed by a pool key over another hash (recovers to an address outside the pool)
+	sealBy int             // key index of a genuine seal, -1 otherwise
+	sealW  bool            // sealed by a pool key over another hash (recovers to an address outside the pool)
+	rec    ecommon.Address // what the harness itself recovers from the header's own seal (go-ethereum ecrecover)
+	recOK  bool
 	diff   uint64
 	extra  []byte
 	mixBad bool
@@ -482,11 +484,11 @@ func (f *posaFam) oracle(r *hx.Run, n *posaNode, parentStoredBefore bool) {
 	if len(n.extra) < 97 || (len(n.extra)-97)%20 != 0 || n.mixBad || n.uncBad {
 		r.Viol("C29:"+rt+":malformed-stored", fmt.Sprintf("header %s stored with extra length %d, mixBad=%v uncleBad=%v", n.id, len(n.extra), n.mixBad, n.uncBad))
 	}
-	if n.sealBy < 0 || posaKeys[n.sealBy].addr != n.cb {
-		r.Viol("C29:"+rt+":stored-with-bad-seal", fmt.Sprintf("header %s stored although its seal does not recover to its coinbase (sealed by key %d)", n.id, n.sealBy))
+	if !n.recOK || n.rec != n.cb {
+		r.Viol("C29:"+rt+":stored-with-bad-seal", fmt.Sprintf("header %s stored although its seal does not recover to its coinbase (recoverable: %v, recovered key %d, coinbase key %d)", n.id, n.recOK, idxOfAddr(n.rec), idxOfAddr(n.cb)))
 		return
 	}
-	signer := posaKeys[n.sealBy].addr
+	signer := n.rec
 	set := f.inEffect(n.num, anc)
 	pos := -1
 	for i, v := range set {
@@ -495,7 +497,7 @@ func (f *posaFam) oracle(r *hx.Run, n *posaNode, parentStoredBefore bool) {
 		}
 	}
 	if pos < 0 {
-		r.Viol("C29:"+rt+":stored-with-signer-outside-set", fmt.Sprintf("header %s (number %d) stored, signer key %d is not in the set in effect (%d members)", n.id, n.num, n.sealBy, len(set)))
+		r.Viol("C29:"+rt+":stored-with-signer-outside-set", fmt.Sprintf("header %s (number %d) stored, signer key %d is not in the set in effect (%d members)", n.id, n.num, idxOfAddr(signer), len(set)))
 		return
 	}
 	// recent window: the signer must not have sealed any of the floor(|set|/2) preceding blocks (block 0 carries no seal)
@@ -604,7 +606,22 @@ func (f *posaFam) Exec(r *hx.Run, op []string) string {
 	case "genesis":
 		return f.execGenesis(r, op)
 	case "hdr":
-		return f.execHdr(r, op)
+		if len(op) != 13 {
+			return "bad-op"
+		}
+		return f.execHdr(r, op, op[1], strings.Join(op, " "))
+	case "twin":
+		// twin <id> <orig> <seal>: the header of descriptor <orig> (same signed fields, same state root) with another seal
+		if len(op) != 4 {
+			return "bad-op"
+		}
+		od, ok := f.descr[op[2]]
+		ot := strings.Fields(od)
+		if !ok || len(ot) != 13 || ot[0] != "hdr" {
+			return "bad-op"
+		}
+		ot[1], ot[5] = op[1], op[3]
+		return f.execHdr(r, ot, op[2], strings.Join(op, " "))
 	case "junk":
 		p := &hscommon.SyncBlockHeaderParam{ChainID: posaChainID, Headers: [][]byte{[]byte("{not json")}}
 		ps := common.NewZeroCopySink(nil)
@@ -771,10 +788,7 @@ func (f *posaFam) execGenesis(r *hx.Run, op []string) string {
 	return res + " " + line
 }
 
-func (f *posaFam) execHdr(r *hx.Run, op []string) string {
-	if len(op) != 13 {
-		return "bad-op"
-	}
+func (f *posaFam) execHdr(r *hx.Run, op []string, rootLabel, desc string) string {
 	id, parent := op[1], op[2]
 	num, e1 := strconv.ParseUint(op[3], 10, 32)
 	cb, ok1 := f.cbOf(op[4])
@@ -786,7 +800,6 @@ func (f *posaFam) execHdr(r *hx.Run, op []string) string {
 	if e1 != nil || !ok1 || e2 != nil || !ok2 || e3 != nil || e4 != nil || e5 != nil {
 		return "bad-op"
 	}
-	desc := strings.Join(op, " ")
 	if d, seen := f.descr[id]; seen && d != desc {
 		return "bad-op"
 	}
@@ -803,7 +816,7 @@ func (f *posaFam) execHdr(r *hx.Run, op []string) string {
 		return "bad-op"
 	}
 	phash := f.hashOf(parent)
-	h, ok := f.build(id, phash, num, cb, diff, extra, tm, gl, gu, op[11], op[12])
+	h, ok := f.build(rootLabel, phash, num, cb, diff, extra, tm, gl, gu, op[11], op[12])
 	if !ok {
 		return "bad-op"
 	}
@@ -832,9 +845,20 @@ func (f *posaFam) execHdr(r *hx.Run, op []string) string {
 	if num > f.maxNum {
 		f.maxNum = num
 	}
+	// the harness recovers the signer from the header's own seal (independent of the handler and of the op token)
+	var rec ecommon.Address
+	recOK := false
+	if len(h.Extra) >= 65 {
+		sh := f.rt.sealHash(h, f.ethCID)
+		if pub, err := ecrypto.Ecrecover(sh[:], h.Extra[len(h.Extra)-65:]); err == nil && len(pub) == 65 {
+			copy(rec[:], ecrypto.Keccak256(pub[1:])[12:])
+			recOK = true
+		}
+	}
 	n, seen := f.nodes[id]
 	if !seen {
 		n = &posaNode{id: id, parent: parent, hash: hash, phash: phash, num: num, cb: cb, sealBy: genuine, diff: diff, extra: extra,
+			rec: rec, recOK: recOK,
 			mixBad: strings.Contains(op[11], "mix"), uncBad: strings.Contains(op[11], "unc"), time: tm, gl: gl}
 		f.nodes[id] = n
 		f.byHash[hash] = id
